@@ -146,8 +146,8 @@ func CheckSpecString(s string, params parser.Params, declared func(string) bool)
 	if rerr.Pos < 0 || rerr.Pos > len(s) {
 		return Violf("spec %q: error position %d outside the string", s, rerr.Pos), res
 	}
-	if rerr.Pos < merr.Lo || rerr.Pos > merr.Hi {
-		return Violf("spec %q: error position %d is not at the offending token [%d,%d] (%s)", s, rerr.Pos, merr.Lo, merr.Hi, merr.Msg), res
+	if !merr.Admits(rerr.Pos) {
+		return Violf("spec %q: error position %d is not at an offending token (first one: [%d,%d] %s; others: %v)", s, rerr.Pos, merr.Lo, merr.Hi, merr.Msg, merr.Also), res
 	}
 	func() {
 		defer func() {
